@@ -13,8 +13,10 @@ What is tied, on every run:
         cum + breakpoints + intersect_1d  ~ rc.old_to_new      ~ _rechunk.old_to_new (one axis)
         partition_all(size, n)            ~ py.partition_all    ~ tlz.partition_all(size, range(n))
         searchsorted_right                ~ py.bisect_right     ~ bisect.bisect_right
-     and two-way (Rust vs Python, no Lean model): argsort_i64, key_string, grid_nbytes, advance, full_coord,
-     product_u32.
+     and two-way (Rust vs Python, no Lean model): for_each_non_axis_position (generic collecting wrapper, vs
+     itertools.product over the non-sliding grid), argsort_i64/usize, key_string, grid_nbytes, expected_nbytes_for,
+     advance, full_coord, product_u32, getitem_coord_from_choice, intern, w_u32/w_i64/w_str/w_bytes/w_opt_i64.
+     Evidence lists every std-only fn found (compared / not compared) and every other top-level fn with the reason.
   2. with the extension absent, every expression kind that has a `_frisky_layer` declines
      (ImportError / NotImplementedError only) and `x.__dask_graph__()` / `collect_task_records(x)` fall back
      to the Python `_layer()` and compute NumPy's values.
@@ -42,6 +44,7 @@ from harness.core import f_list, f_ll
 STD_CAPS = {
     "Vec", "String", "HashMap", "HashSet", "BTreeMap", "Option", "Some", "None", "Ok", "Err", "Result", "Box",
     "IntoIterator", "Iterator", "Item", "MAX", "MIN", "Ordering", "Self", "Default", "Clone", "Copy", "ToString",
+    "Fn", "FnMut", "FnOnce",
 }
 FN_RE = re.compile(r"^(?:pub(?:\([^)]*\))?\s+)?fn\s+([A-Za-z_][A-Za-z0-9_]*)", re.M)
 
@@ -175,6 +178,52 @@ HANDLERS = {
                 let na: Vec<u32> = parse_list(t[1]).iter().map(|&x| x as u32).collect();
                 let av: u32 = t[2].parse().unwrap(); let ax: usize = t[3].parse().unwrap(); let nd: usize = t[4].parse().unwrap();
                 format!("ok {}", fmt_list(&full_coord(&na, av, ax, nd)))
+            }"""),
+    "nonaxis": (("for_each_non_axis_position",), """
+            "nonaxis" => {
+                // generic wrapper: collect the full coordinate the closure builds at every visited position
+                let nb: Vec<usize> = parse_list(t[1]).iter().map(|&x| x as usize).collect();
+                let ax: usize = t[2].parse().unwrap(); let blk: u32 = t[3].parse().unwrap();
+                let mut seen: Vec<Vec<u32>> = Vec::new();
+                for_each_non_axis_position(&nb, ax, |full| { seen.push(full(blk)); });
+                seen.sort();
+                if seen.is_empty() { "ok -".to_string() } else {
+                    format!("ok {}", seen.iter().map(|c| fmt_list(c)).collect::<Vec<_>>().join(";")) }
+            }"""),
+    "argsortu": (("argsort_usize",), """
+            "argsortu" => { let b: Vec<usize> = parse_list(t[1]).iter().map(|&x| x as usize).collect(); format!("ok {}", fmt_list(&argsort_usize(&b))) }"""),
+    "gcoord": (("getitem_coord_from_choice",), """
+            "gcoord" => {
+                let firsts = parse_list(t[1]); let seconds = parse_list(t[2]); let lens = parse_list(t[3]);
+                let pos: Vec<u32> = parse_list(t[4]).iter().map(|&x| x as u32).collect();
+                let mut choices: Vec<Vec<(u32, u32)>> = Vec::new(); let mut k = 0usize;
+                for &l in lens.iter() { let mut row = Vec::new(); for _ in 0..l { row.push((firsts[k] as u32, seconds[k] as u32)); k += 1; } choices.push(row); }
+                format!("ok {}", fmt_list(&getitem_coord_from_choice(&choices, &pos)))
+            }"""),
+    "intern": (("intern",), """
+            "intern" => {
+                let mut names: Vec<String> = Vec::new(); let mut index: HashMap<String, usize> = HashMap::new();
+                let ids: Vec<usize> = t[1].split(',').map(|s| intern(s.to_string(), &mut names, &mut index)).collect();
+                format!("ok {} {}", fmt_list(&ids), names.join(","))
+            }"""),
+    "wprim": (("w_u32", "w_i64", "w_str", "w_bytes", "w_opt_i64"), """
+            "wprim" => {
+                let mut buf: Vec<u8> = Vec::new();
+                match t[1] {
+                    "u32" => w_u32(&mut buf, t[2].parse().unwrap()),
+                    "i64" => w_i64(&mut buf, t[2].parse().unwrap()),
+                    "str" => w_str(&mut buf, t[2]),
+                    "bytes" => w_bytes(&mut buf, t[2].as_bytes()),
+                    "opt" => w_opt_i64(&mut buf, if t[2] == "N" { None } else { Some(t[2].parse().unwrap()) }),
+                    _ => {}
+                }
+                format!("ok {}", buf.iter().map(|b| format!("{:02x}", b)).collect::<Vec<_>>().join(""))
+            }"""),
+    "expnb": (("expected_nbytes_for", "grid_nbytes"), """
+            "expnb" => {
+                let coord: Vec<u32> = parse_list(t[2]).iter().map(|&x| x as u32).collect();
+                let chunks: Vec<Vec<i64>> = if t[4] == "-" { Vec::new() } else { t[4].split(';').map(|d| parse_list(d)).collect() };
+                format!("ok {}", expected_nbytes_for(t[1], &coord, t[3], &chunks, t[5].parse().unwrap()))
             }"""),
     "product": (("product_u32",), """
             "product" => { let v: Vec<u32> = parse_list(t[1]).iter().map(|&x| x as u32).collect(); format!("ok {}", product_u32(&v)) }"""),
@@ -319,6 +368,24 @@ def kernel_corr(ctx, R, have):
             for o in comps:
                 for nw in comps:
                     tr.append((f"rc.old_to_new {f_list(o)} {f_list(nw)}", f"o2n {f_list(o)} {f_list(nw)}", py_o2n(R, o, nw)))
+        # MANY blocks per axis (25-200) with many coinciding old/new boundaries: std's unstable sort is an insertion
+        # sort (ties keep their order) up to 20 elements, so a lost stability of `breakpoints` only shows here
+        for _ in range(max(400, n_o2n // 8)):
+            k = rng.randint(25, 200)
+            o = [rng.choice([0, 1, 1, 2, 3, 7]) for _ in range(k)]
+            cuts = [0]
+            for c in o:
+                cuts.append(cuts[-1] + c)
+            keep = sorted(set(b_ for b_ in cuts[1:-1] if rng.random() < rng.choice([0.3, 0.6, 0.9])) |
+                          {rng.randint(0, cuts[-1]) for _ in range(rng.randint(0, 5))})
+            bounds = [0] + keep + [cuts[-1]]
+            nw = [b2 - b1 for b1, b2 in zip(bounds, bounds[1:])]
+            if rng.random() < 0.3:
+                for _ in range(rng.randint(1, 3)):
+                    nw.insert(rng.randint(0, len(nw)), 0)
+            if rng.random() < 0.5:
+                o, nw = nw, o
+            tr.append((f"rc.old_to_new {f_list(o)} {f_list(nw)}", f"o2n {f_list(o)} {f_list(nw)}", py_o2n(R, o, nw)))
         while len(tr) < n_o2n:
             o = rand_chunks_big(rng, 0.3)
             if rng.random() < 0.9:
@@ -372,11 +439,68 @@ def kernel_corr(ctx, R, have):
             av = rng.randint(0, 9)
             full = na[:ax] + [av] + na[ax:]
             tr.append((None, f"fullcoord {f_list(na)} {av} {ax} {nd}", "ok " + f_list(full)))
+        if "argsortu" in have:
+            l = [rng.randint(0, 6) for _ in range(rng.randint(0, 30))]
+            tr.append((None, f"argsortu {f_list(l)}", "ok " + f_list(np.argsort(np.array(l, dtype=np.int64), kind="stable").tolist())))
+        if "gcoord" in have:
+            lens = [rng.randint(1, 3) for _ in range(rng.randint(1, 4))]
+            ch = [[(rng.randint(0, 9), rng.randint(0, 9)) for _ in range(l)] for l in lens]
+            pos = [rng.randrange(l) for l in lens]
+            flat = [p_ for row in ch for p_ in row]
+            want = [ch[d][pos[d]][0] for d in range(len(lens))] + [ch[d][pos[d]][1] for d in range(len(lens))]
+            tr.append((None, f"gcoord {f_list(p_[0] for p_ in flat)} {f_list(p_[1] for p_ in flat)} {f_list(lens)} {f_list(pos)}", "ok " + f_list(want)))
+        if "intern" in have:
+            nms = [rng.choice(["a", "b", "sum-1", "x-merge", "x-split"]) for _ in range(rng.randint(1, 8))]
+            tab = {}
+            ids = [tab.setdefault(n_, len(tab)) for n_ in nms]
+            tr.append((None, f"intern {','.join(nms)}", f"ok {f_list(ids)} {','.join(tab)}"))
+        if "wprim" in have:
+            import struct
+
+            kind = rng.choice(["u32", "i64", "str", "bytes", "opt"])
+            if kind == "u32":
+                v = rng.choice([0, 1, 255, 256, 2**32 - 1, rng.randint(0, 2**32 - 1)])
+                tr.append((None, f"wprim u32 {v}", "ok " + struct.pack("<I", v).hex()))
+            elif kind == "i64":
+                v = rng.choice([0, -1, 2**63 - 1, -2**63, rng.randint(-2**40, 2**40)])
+                tr.append((None, f"wprim i64 {v}", "ok " + struct.pack("<q", v).hex()))
+            elif kind in ("str", "bytes"):
+                v = rng.choice(["a", "rechunk-merge-ab12", "x" * rng.randint(1, 40), "é-ü"])
+                bts = v.encode()
+                tr.append((None, f"wprim {kind} {v}", "ok " + (struct.pack("<I", len(bts)) + bts).hex()))
+            else:
+                v = rng.choice([None, 0, -5, 2**40])
+                tr.append((None, f"wprim opt {'N' if v is None else v}", "ok " + (b"\x00" if v is None else b"\x01" + struct.pack("<q", v)).hex()))
+        if "expnb" in have:
+            nd_ = rng.randint(0, 3)
+            chs = [[rng.choice([0, 1, 3, 100, 2**31]) for _ in range(rng.randint(1, 3))] for _ in range(nd_)]
+            co = [rng.randint(0, 3) for _ in range(rng.choice([nd_, nd_, max(0, nd_ - 1)]))]
+            tn, on = rng.choice([("a", "a"), ("a", "b")])
+            it = rng.choice([0, 1, 8])
+            if tn != on or len(co) != len(chs):
+                want = 0
+            else:
+                want = py_grid_nbytes(it, [chs[d][co[d]] if co[d] < len(chs[d]) else 0 for d in range(nd_)])
+            tr.append((None, f"expnb {tn} {f_list(co)} {on} {f_ll(chs)} {it}", f"ok {want}"))
         if "product" in have:
             v = [rng.randint(0, 50) for _ in range(rng.randint(0, 5))]
             tr.append((None, f"product {f_list(v)}", f"ok {int(np.prod(v, dtype=object)) if v else 1}"))
     if tr:
-        three_way(ctx, "two-way(argsort,key_string,grid_nbytes,advance,full_coord,product_u32)", tr)
+        three_way(ctx, "two-way(small kernels)", tr)
+    # for_each_non_axis_position (shared by the sliding-window / moving-window layers): the visited block coordinates
+    # must be exactly the grid of the non-sliding dimensions (itertools.product, as the Python _layer enumerates)
+    if "nonaxis" in have:
+        tr = []
+        grids = [(5, 2, 3, 2), (2, 3, 2, 2), (3, 2, 2, 3, 2), (1,), (4,), (2, 2), (1, 3, 1, 2), (2, 1, 2, 1, 2)]
+        for _ in range(ctx.scale(300, 20_000)):
+            grids.append(tuple(rng.randint(1, 4) for _ in range(rng.randint(1, 5))))
+        for nb in grids:
+            for ax in (range(len(nb)) if len(grids) < 400 or rng.random() < 0.3 else [rng.randrange(len(nb))]):
+                blk = rng.randrange(nb[ax])
+                want = sorted(tuple(blk if d == ax else o[d - (d > ax)] for d in range(len(nb)))
+                              for o in itertools.product(*(range(nb[d]) for d in range(len(nb)) if d != ax)))
+                tr.append((None, f"nonaxis {f_list(nb)} {ax} {blk}", "ok " + f_ll(want)))
+        three_way(ctx, "for_each_non_axis_position", tr)
     # advance enumerates itertools.product order: walk a whole grid
     if "advance" in have:
         tr = []
@@ -602,9 +726,10 @@ def declines(ctx):
     ctx.extra["frisky_layer_classes_not_exercised"] = sorted(set(classes) - exercised)
 
 
-def replay_requests(ctx, R, reqs):
+def replay_requests(ctx, R, reqs, stored=None):
     import tlz
 
+    stored = stored or {}
     tr = []
     for rq in reqs:
         t = rq.split()
@@ -618,6 +743,14 @@ def replay_requests(ctx, R, reqs):
         elif t[0] == "ssr":
             l, v = pl(t[1]), int(t[2])
             tr.append((f"py.bisect_right {t[1]} {v}", rq, f"ok {bisect.bisect_right(l, v)}"))
+        elif t[0] == "nonaxis":
+            nb, ax, blk = pl(t[1]), int(t[2]), int(t[3])
+            want = sorted(tuple(blk if d == ax else o[d - (d > ax)] for d in range(len(nb)))
+                          for o in itertools.product(*(range(nb[d]) for d in range(len(nb)) if d != ax)))
+            tr.append((None, rq, "ok " + f_ll(want)))
+        elif rq in stored:
+            # small two-way kernels: the reference output recorded with the failure (a pure-Python reference)
+            tr.append((None, rq, stored[rq]))
     if tr:
         three_way(ctx, "replay", tr)
 
@@ -638,6 +771,11 @@ def targeted(ctx, R):
             ctx.fail("rust-kernel:partition_all", {"kind": "kernel", "request": d["request"], "rust": d["model"], "python": d["impl"]},
                      "the extracted Rust partition_all groups other input blocks than tlz.partition_all: the native PartialReduceLayer "
                      "would give aggregate tasks other dependencies than PartialReduce._layer()")
+        elif t[0] == "nonaxis" and "rust" in d["family"]:
+            n += 1
+            ctx.fail("rust-kernel:for_each_non_axis_position", {"kind": "kernel", "request": d["request"], "rust": d["model"], "python": d["impl"]},
+                     "the extracted Rust walker over the non-sliding block grid visits other coordinates than itertools.product: the native "
+                     "SlidingWindowReductionLayer / MovingWindowReductionLayer would emit some block keys twice and others never")
         elif "rust" in d["family"]:
             n += 1
             ctx.fail("rust-kernel:" + t[0], {"kind": "kernel", "request": d["request"], "rust": d["model"], "python": d["impl"]},
@@ -659,7 +797,7 @@ def run(ctx, replay=None):
         "nesting), to_dask_graph / to_task_records / to_records_chunk encodings and the build-generation guard are NOT executed",
         "the extracted kernels are compiled with rustc from the text found in the current tree (brace matching); the std-only "
         "wrapper main.rs (harness/props/C22.py) is trusted",
-        "argsort_i64, key_string, grid_nbytes, advance, full_coord, product_u32 have no Lean model: compared Rust vs Python only",
+        "kernels other than cum/breakpoints/intersect_1d/partition_all/searchsorted_right have no Lean model: compared Rust vs Python only",
     ]
     srcdir = core.REPO / "crates" / "dask-array-python" / "src"
     if not srcdir.is_dir():
@@ -670,7 +808,8 @@ def run(ctx, replay=None):
     required = ("cum", "breakpoints", "intersect_1d", "partition_all")
     ctx.extra["rust_kernels_extracted"] = {k: {"file": f, "sha256": hashlib.sha256(t.encode()).hexdigest()[:16], "lines": t.count("\n") + 1}
                                            for k, (f, t) in kernels.items()}
-    ctx.extra["rust_fns_not_pure"] = len(skipped)
+    ctx.extra["rust_fns_not_std_only"] = {k: "mentions non-std types " + ", ".join(v) if v else "mentions crate:: / pyo3 / a 'py lifetime"
+                                          for k, v in sorted(skipped.items())}
     missing = [k for k in required if k not in kernels]
     if missing:
         raise RuntimeError(f"planning kernels not found as std-only top-level fns in {srcdir}: {missing}")
@@ -681,15 +820,22 @@ def run(ctx, replay=None):
         binary, have = build_rust(kernels, Path(tmp))
         ctx._rust_bin = binary
         ctx.extra["rust_handlers"] = have
+        driven = {k for h in have for k in HANDLERS[h][0]}
+        three = {"cum", "breakpoints", "intersect_1d", "partition_all", "searchsorted_right"}
+        ctx.extra["rust_kernels_compared"] = {
+            k: ("three-way (Rust ~ Lean ~ Python)" if k in three else "two-way (Rust ~ Python; no Lean model)") for k in sorted(driven)}
+        ctx.extra["rust_kernels_extracted_not_compared"] = {
+            k: "std-only and compiled, but the harness has no protocol handler for it" for k in sorted(set(kernels) - driven)}
         ctx.extra["trusted_base"] = ["rustc (compiles the extracted kernels) and the std-only protocol wrapper generated by harness/props/C22.py"]
         if replay is not None:
             case = replay.get("case")
             if case is not None and case.get("kind") == "kernel":
-                replay_requests(ctx, R, [case["request"]])
+                replay_requests(ctx, R, [case["request"]], {case["request"]: case.get("python")})
             elif case is not None and case.get("kind") == "declines":
                 declines(ctx)
             else:
-                replay_requests(ctx, R, [d["request"] for d in replay.get("disagreements", [])])
+                replay_requests(ctx, R, [d["request"] for d in replay.get("disagreements", [])],
+                                {d["request"]: d["impl"] for d in replay.get("disagreements", [])})
             if ctx.disagreements:
                 targeted(ctx, R)
             return
